@@ -569,6 +569,108 @@ def sidefx_check(ctx, binary, profile, mods_items, only=None):
     return n, nfailing
 
 
+# ---- VM-level working state left by a failing snippet: the SAME feature exercised afresh must work by value ----
+# failing snippets, by the working state they can leave behind
+RESIDUE_FAILS = [
+    ("class:undefined_super", "#[constructor(new), derive(Shape)] class Circle { fn area(self) { return 1; } }"),
+    ("class:non_class_super", "#[constructor(new), derive(print)] class Circle { fn area(self) { return 1; } }"),
+    ("class:in_call", "(|| { #[derive(clock)] class Circle { fn area(self) { return 1; } } })();"),
+    ("class:in_fiber", "Fiber.new(|| { #[derive(Shape)] class Circle { fn area(self) { return 1; } } }).call();"),
+    ("class:in_try_finally", "try { #[derive(Shape)] class Circle { fn area(self) { return 1; } } } finally { print(\"fin\"); }"),
+    ("return:pending_finally_throws", "(|| { try { return 1; } finally { throw 4; } })();"),
+    ("flag:throw_top", "throw 1;"),
+    ("flag:throw_in_finally_path", "try { throw 1; } finally { print(\"fin\"); }"),
+    ("flag:throw_in_catch", "try { throw 1; } catch e { throw 2; }"),
+    ("flag:builtin_in_try", "try { nil.foo; } finally { print(\"nf\"); }"),
+    ("errorip:deep_line", "fn deep() {\n\n\n  throw 1;\n}\nfn mid() {\n  deep();\n}\nmid();"),
+    ("errorip:caught_then_builtin", "try { throw 1; } catch e { }\n\n\nnil.foo;"),
+    ("range:built_then_fail", "for i in 0..3 { print(i); } var r = 5..9; throw 1;"),
+    ("range:many_then_fail", "var a = [0..1, 0..2, 0..3, 0..4, 0..5, 0..6, 0..7, 0..8, 0..9, 1..3]; nil.foo;"),
+    ("module:body_throws", "import \"bad\" as mb;"),
+    ("module:nested_throws", "import \"nest\" as mn;"),
+    ("module:missing", "import \"missing\" as mm;"),
+    ("module:uncompilable", "import \"syn\" as ms;"),
+    ("upvalue:open_in_failing_frame", "var c = nil; (|| { var x = 41; c = || x; throw 1; })();"),
+    ("upvalue:open_in_caller_fiber", "var c = nil; (|| { var x = 41; c = || x; Fiber.new(|| { throw 1; }).call(); })();"),
+    ("handlers:nested_try", "try { try { throw 1; } finally { print(\"a\"); } } finally { print(\"b\"); }"),
+    ("handlers:in_call_in_try", "fn th() { throw 1; } try { th(); } finally { print(\"x\"); }"),
+    ("handlers:fiber_in_try", "try { Fiber.new(|| { try { throw 3; } finally { print(\"ff\"); } }).call(); } finally { print(\"outer\"); }"),
+    ("fiber:waiting_chain", "var fw = Fiber.new(|| { Fiber.new(|| { throw 1; }).call(); }); fw.call();"),
+    ("fiber:yielded_then_throw", "var fy = Fiber.new(|| { Fiber.yield(1); throw 2; }); fy.call(); fy.call();"),
+    ("compile:after_function", "fn hh() { return 0; } var = ;"),
+    ("compile:in_class", "class Broken { fn m(self) { return ; } fn }"),
+    ("setglobal:undeclared", "total = 41;"),
+]
+# self-contained probes (fresh names, no addresses printed): the same features, observed by value
+RESIDUE_PROBES = [
+    ("class", "#[constructor(new)] class Point { fn x(self) { return 3; } } print(Point); print(type(Point.new())); print(Point.new().x()); "
+              "#[constructor(new), derive(Point)] class Point3 { fn z(self) { return 5; } } print(Point3); print(type(Point3.new())); "
+              "print(Point3.new().x()); print(Point3.new().z()); print(Point3.new().derives(Point));"),
+    ("class_static", "class Util { #[static] fn twice(n) { return n * 2; } } print(Util); print(Util.twice(4)); print(type(Util));"),
+    ("return", "fn r2() { try { return 7; } finally { print(\"f\"); } } print(r2()); fn r3() { try { return 8; } catch e { return 9; } } print(r3()); print(\"after\");"),
+    ("try", "try { print(\"t\"); } finally { print(\"f\"); } try { throw 2; } catch e { print(e); } finally { print(\"g\"); } print(\"after\");"),
+    ("try_nested", "try { try { throw 5; } finally { print(\"i\"); } } catch e { print(e); } print(\"after\");"),
+    ("error_trace", "fn bad2() {\n  nil.bar;\n}\n\nbad2();"),
+    ("range", "for i in 0..3 { print(i); } print(0..3); print((0..3) == (0..3)); var rs = [0..1, 0..2, 0..3, 0..4, 0..5, 0..6, 0..7, 0..8, 0..9]; print(rs.len()); print(5..9);"),
+    ("import_good", "import \"good\" as mg2; print(mg2.v);"),
+    ("import_bad_again", "import \"bad\" as mb2;"),
+    ("import_nest_again", "import \"nest\" as mn2;"),
+    ("closure", "var c2 = nil; (|| { var x = 5; c2 = || x; })(); print(c2()); var mk = |n| { return || n + 1; }; print(mk(1)());"),
+    ("fiber", "var f2 = Fiber.new(|| { try { Fiber.yield(1); throw 6; } catch e { print(e); } return 5; }); print(f2.call()); print(f2.call()); print(f2.has_finished());"),
+    ("global", "var fresh = 1; fresh = fresh + 1; print(fresh);"),
+]
+
+
+def fmt_full(r):
+    """observation with EVERY message line (trace lines included)"""
+    return fmt_obs(r) + ";msgs=" + ",".join(r["msgs"])
+
+
+def residue_check(ctx, binary, profile, mods_items, only=None):
+    """[failing snippet, probe, probe'] : the probes behave as on a newly created interpreter"""
+    if only is not None:
+        cases = [("replay", only[0], only[1:])]
+    else:
+        cases = [("%s / %s" % (fn, pn), f, [p, RESIDUE_PROBES[(i + 1) % len(RESIDUE_PROBES)][1]])
+                 for fn, f in RESIDUE_FAILS for i, (pn, p) in enumerate(RESIDUE_PROBES)]
+    with_fail = run_raw(binary, [[f] + ps for _, f, ps in cases], mods_items)
+    fresh_cache = {}
+    todo = sorted({tuple(ps) for _, _, ps in cases})
+    for ps, recs in zip(todo, run_raw(binary, [list(ps) for ps in todo], mods_items)):
+        fresh_cache[ps] = recs
+    n = 0
+    for (label, f, ps), a in zip(cases, with_fail):
+        n += 1
+        b = fresh_cache[tuple(ps)]
+        if not a or not (a[0]["res"] or "").startswith("err"):
+            note = "residue family: %r did not fail on this tree" % f
+            if label != "replay" and note not in ctx.notes:
+                ctx.notes.append(note)
+            continue
+        got = [fmt_full(r) for r in a[1:]]
+        want = [fmt_full(r) for r in b]
+        # a probe that imports a module the failing snippet already imported does not load it again: compare without loader calls
+        strip = lambda l: [";".join(kv for kv in x.split(";") if not kv.startswith("loads=")) for x in l]
+        if strip(got) != strip(want):
+            ctx.violation("after a failing snippet (%s) the same feature exercised afresh behaves differently than on a new interpreter [%s build]" % (label, profile),
+                          input=[f] + ps, raw_residue=[f] + ps, profile=profile,
+                          expected=[readable(x.split(";msgs=")[0]) for x in want], actual=[readable(x.split(";msgs=")[0]) for x in got],
+                          expected_messages=[[unmsg(m) for m in x.split(";msgs=")[1].split(",") if m] for x in want],
+                          actual_messages=[[unmsg(m) for m in x.split(";msgs=")[1].split(",") if m] for x in got])
+    return n
+
+
+def directed_families(ctx, bins, mods_items):
+    """the cheap directed oracles on the implementation alone (both builds); returns the number of harness histories"""
+    n = nf = 0
+    for profile, binary in bins.items():
+        a, b = sidefx_check(ctx, binary, profile, mods_items)
+        n += 2 * a
+        nf += b
+        n += residue_check(ctx, binary, profile, mods_items)
+    return n, nf
+
+
 def nontrivial(h, m, irs):
     """>= 1 failing snippet followed by >= 1 snippet that uses a definition made BEFORE the failure and by a construct of the
     same kind as the one that failed (measured on the implementation's own outcomes)"""
@@ -641,6 +743,13 @@ def run(ctx):
                      only=ctx.replay_only["raw"])
         ctx.cov.update({"evaluations": 2, "distinct_nontrivial": 1, "rule": "replay of one raw side-effect history", "samples": [ctx.replay_only["raw"]]})
         return
+    if ctx.replay_only and "raw_residue" in ctx.replay_only:
+        mods_items = " ".join("%s=%s" % (hx(n), hx(s)) for n, s in zip(["good", "bad", "syn", "nest"], MOD_SRC))
+        load_msg_table()
+        residue_check(ctx, bins[ctx.replay_only.get("profile", "debug")], ctx.replay_only.get("profile", "debug"), mods_items,
+                      only=ctx.replay_only["raw_residue"])
+        ctx.cov.update({"evaluations": 2, "distinct_nontrivial": 1, "rule": "replay of one raw residue history", "samples": [ctx.replay_only["raw_residue"]]})
+        return
     if ctx.replay_only:
         hists = [[tuple(int(x) for x in g.split(" ")) for g in ctx.replay_only["wire"].split(";")]]
     else:
@@ -671,11 +780,9 @@ def run(ctx):
     meta = fresh = ref = 0
     impl_by_profile = {}
     sfx = sfx_failing = 0
+    if not ctx.replay_only and not getattr(ctx, "_directed_done", False):
+        sfx, sfx_failing = directed_families(ctx, bins, mods_items)
     for profile, binary in bins.items():
-        if not ctx.replay_only:
-            a, b = sidefx_check(ctx, binary, profile, mods_items)
-            sfx += 2 * a
-            sfx_failing += b
         impl = check_histories(ctx, hists, binary, profile, core, mods_items, models)
         impl_by_profile[profile] = impl
         for h, m, irs in zip(hists, models, impl):
@@ -754,6 +861,7 @@ def run(ctx):
         "evaluations": len(hists) * 2 + meta + fresh + ref + sfx,
         "side_effect_histories": sfx, "side_effect_histories_failing_as_intended": sfx_failing,
         "side_effect_kinds": [c[0] for c in SIDEFX],
+        "residue_failing_kinds": [c[0] for c in RESIDUE_FAILS], "residue_probes": [c[0] for c in RESIDUE_PROBES],
         "distinct_nontrivial": len(nontriv),
         "rule": "histories of <= 9 snippets of the mini-language ReplLang.v (definitions, uses, compile errors, uncaught errors from 18 places, "
                 "try/finally and fibers that complete, imports of a good/throwing/missing/uncompilable/nested module, RESET): every "
@@ -770,9 +878,18 @@ def run(ctx):
 
 
 def search(ctx):
-    """obligations broken and nothing found: run the thorough generators against the Spec"""
+    """obligations broken and nothing found: the directed families first (cheap, both builds); only if they find nothing the
+    thorough generators against the Spec"""
+    bins = {"debug": ctx.harness("debug"), "release": ctx.harness("release")}
+    mods_items = " ".join("%s=%s" % (hx(n), hx(s)) for n, s in zip(["good", "bad", "syn", "nest"], MOD_SRC))
+    if load_msg_table():
+        directed_families(ctx, bins, mods_items)
+        if ctx.violations:
+            ctx.violations[:] = ctx.violations[:5]
+            return
     old = ctx.tier
     ctx.tier = "thorough"
+    ctx._directed_done = True
     keep_b, keep_c = list(ctx.broken), list(ctx.corr_broken)
     try:
         run(ctx)
